@@ -31,9 +31,9 @@ import (
 	"github.com/ipni/go-libipni/announce/gossiptopic"
 	"github.com/ipni/go-libipni/announce/message"
 	"github.com/ipni/go-libipni/announce/p2psender"
+	"github.com/ipni/go-libipni/dagsync"
 	"github.com/libp2p/go-libp2p"
 	"github.com/libp2p/go-libp2p/core/host"
-	"github.com/ipni/go-libipni/dagsync"
 	"github.com/libp2p/go-libp2p/core/peer"
 
 	"verif/harness/subdrv"
@@ -51,6 +51,20 @@ type Scn struct {
 	Ops     []string      `json:"ops,omitempty"` // mix / seq: close | sync | announce | listen | cancel
 	Rules   []subdrv.Rule `json:"rules,omitempty"`
 	Random  int           `json:"random,omitempty"`
+	// Subscriber options read by the code Close waits for (boundary values)
+	TTL    string `json:"ttl,omitempty"`    // IdleHandlerTTL: "" default | zero | neg | tiny
+	NoRecv bool   `json:"norecv,omitempty"` // created without RecvAnnounce
+}
+
+func (sc Scn) variant() string {
+	v := ""
+	if sc.TTL != "" {
+		v += "ttl-" + sc.TTL
+	}
+	if sc.NoRecv {
+		v += pick(v == "", "", "+") + "norecv"
+	}
+	return v
 }
 
 type Res struct {
@@ -76,15 +90,15 @@ func (r *Res) fail(sig, msg string) {
 // ---- a subscriber with observers -----------------------------------------------------------
 
 type listener struct {
-	ch     <-chan dagsync.SyncFinished
-	cancel context.CancelFunc
-	mu     sync.Mutex
-	n      int
-	last   uint64 // tick of the last notification read
-	closed bool
-	done   chan struct{}
-	start  chan struct{} // nil: reads at once; else waits for it (stalled)
-	key    int           // key of the OnSyncFinished call in the trace
+	ch        <-chan dagsync.SyncFinished
+	cancel    context.CancelFunc
+	mu        sync.Mutex
+	n         int
+	last      uint64 // tick of the last notification read
+	closed    bool
+	done      chan struct{}
+	start     chan struct{} // nil: reads at once; else waits for it (stalled)
+	key       int           // key of the OnSyncFinished call in the trace
 	cancelled bool
 }
 
@@ -117,6 +131,7 @@ type env struct {
 	tr           tracer
 	latest       []int // per publisher: index of the latest synced advertisement, -1 if none
 	closedRet    atomic.Bool
+	noRecv       bool
 }
 
 func newEnv(sc Scn, res *Res, npubs int, gate subdrv.GateFunc) *env {
@@ -138,8 +153,21 @@ func newEnvWithHost(sc Scn, res *Res, npubs int, gate subdrv.GateFunc, h host.Ho
 	if sc.Sem > 0 {
 		opts = append(opts, dagsync.MaxAsyncConcurrency(sc.Sem))
 	}
+	switch sc.TTL {
+	case "zero":
+		opts = append(opts, dagsync.IdleHandlerTTL(0))
+	case "neg":
+		opts = append(opts, dagsync.IdleHandlerTTL(-time.Second))
+	case "tiny":
+		opts = append(opts, dagsync.IdleHandlerTTL(time.Millisecond))
+	}
 	opts = append(opts, extra...)
-	e.w = subdrv.NewWorldWithHost(h, e.pubs, opts...)
+	e.noRecv = sc.NoRecv
+	if sc.NoRecv {
+		e.w = subdrv.NewWorldNoRecv(e.pubs, opts...)
+	} else {
+		e.w = subdrv.NewWorldWithHost(h, e.pubs, opts...)
+	}
 	e.sched = subdrv.NewSched(e.pubs, sc.Rules, vlib.NewRand(sc.Seed).Fork("sched"), sc.Random)
 	e.sched.Install()
 	return e
@@ -261,6 +289,11 @@ func (e *env) postClose(T uint64, checkGoroutines bool) {
 		})
 		if !ok || pn != nil {
 			res.fail("after-close:Announce:blocked", fmt.Sprintf("Announce after Close did not return (panic=%v)", pn))
+		} else if e.noRecv {
+			// without a receiver Announce is a no-op, before and after Close
+			if err != nil {
+				res.fail("after-close:Announce:error-without-receiver", fmt.Sprintf("Announce after Close of a subscriber without receiver returned %v, want nil", err))
+			}
 		} else if !errors.Is(err, announce.ErrClosed) {
 			res.fail("after-close:Announce:no-error", fmt.Sprintf("Announce after Close returned %v, want ErrClosed", err))
 		}
@@ -862,6 +895,11 @@ func runSeq(sc Scn) (res Res) {
 	t0 := time.Now()
 	e := newEnv(sc, &res, 1, nil)
 	defer e.cleanup()
+	if sc.TTL != "" {
+		// a removed idle handler forgets the latest sync: the number of blocks of later syncs
+		// is then not the model's; the outcomes are still checked (seq family)
+		e.tr.off = true
+	}
 	p := e.pubs[0]
 	head := 1
 	var open []*listener
@@ -913,7 +951,9 @@ func runSeq(sc Scn) (res Res) {
 				out = "blocked"
 			case err == nil:
 				out = "nil"
-				if e.sched.WaitFor("event:sent", 0, n0+1, watchdog) { // let the triggered sync finish
+				if e.noRecv {
+					// no receiver: nothing was queued, nothing will be synced
+				} else if e.sched.WaitFor("event:sent", 0, n0+1, watchdog) { // let the triggered sync finish
 					e.latest[0] = head
 				}
 			case errors.Is(err, announce.ErrClosed):
@@ -978,6 +1018,13 @@ func runSeq(sc Scn) (res Res) {
 	return
 }
 
+func seqFamily(sc Scn) string {
+	if sc.NoRecv {
+		return "seqnorecv"
+	}
+	return "seq"
+}
+
 func pick(b bool, t, f string) string {
 	if b {
 		return t
@@ -1022,7 +1069,7 @@ func coqSeq(r Res) string {
 
 // ---- generation --------------------------------------------------------------------------------
 
-func genAll(c *vlib.Ctx) (targeted []Scn, bulk []Scn) {
+func genAll(c *vlib.Ctx) (targeted []Scn, bulk []Scn, variants []Scn) {
 	// targeted, each in a process of its own
 	targeted = append(targeted, Scn{Kind: "after-close", Seed: c.Seed, Closers: 1})
 	targeted = append(targeted, Scn{Kind: "dist-held", Seed: c.Seed})
@@ -1042,8 +1089,33 @@ func genAll(c *vlib.Ctx) (targeted []Scn, bulk []Scn) {
 		}
 		bulk = append(bulk, Scn{Kind: "async-hung", Seed: c.Seed + uint64(k), Closers: k})
 	}
+	// the same close scenarios under boundary values of the options the code Close waits for
+	// reads: IdleHandlerTTL 0 / negative / tiny (the idle cleaner), no announcement receiver
+	// (no watch goroutine, no semaphore; MaxAsyncConcurrency is then ignored), both
+	type optv struct {
+		ttl    string
+		norecv bool
+	}
+	for vi, v := range []optv{{"zero", false}, {"neg", false}, {"tiny", false}, {"", true}, {"zero", true}} {
+		seed := c.Seed + 100 + uint64(vi)
+		for _, k := range []int{1, 2} {
+			variants = append(variants, Scn{Kind: "after-close", Seed: seed, Closers: k, TTL: v.ttl, NoRecv: v.norecv})
+		}
+		for _, pt := range explicitPoints {
+			bulk = append(bulk, Scn{Kind: "inject-explicit", Seed: seed, Point: pt, Closers: 1 + vi%2, TTL: v.ttl, NoRecv: v.norecv})
+		}
+		if !v.norecv {
+			for _, sem := range []int{0, 1} {
+				for _, pt := range asyncPoints {
+					bulk = append(bulk, Scn{Kind: "inject-async", Seed: seed, Point: pt, Closers: 1 + vi%2, Sem: sem, TTL: v.ttl})
+				}
+			}
+			bulk = append(bulk, Scn{Kind: "async-hung", Seed: seed, Closers: 1, TTL: v.ttl})
+		}
+	}
 	// random mixes
 	rng := c.Rng.Fork("mix")
+	orng := c.Rng.Fork("mix-options")
 	opsK := []string{"close", "sync", "announce", "listen", "cancel"}
 	for i := 0; i < c.Pick(400, 4000); i++ {
 		n := 3 + rng.Intn(6)
@@ -1052,6 +1124,10 @@ func genAll(c *vlib.Ctx) (targeted []Scn, bulk []Scn) {
 			sc.Ops = append(sc.Ops, opsK[rng.Intn(5)])
 		}
 		sc.Ops[rng.Intn(n)] = "close"
+		if orng.Intn(3) == 0 {
+			sc.TTL = []string{"zero", "neg", "tiny", ""}[orng.Intn(4)]
+			sc.NoRecv = sc.TTL == "" || orng.Intn(4) == 0
+		}
 		bulk = append(bulk, sc)
 	}
 	// sequential histories, exhaustive to a length
@@ -1069,6 +1145,15 @@ func genAll(c *vlib.Ctx) (targeted []Scn, bulk []Scn) {
 		}
 	}
 	gen(nil)
+	// the histories up to length 3 again without a receiver and with IdleHandlerTTL(0)
+	for _, v := range []optv{{"", true}, {"zero", false}} {
+		for _, sc := range bulk {
+			if sc.Kind == "seq" && sc.TTL == "" && !sc.NoRecv && len(sc.Ops) <= 3 {
+				sc.TTL, sc.NoRecv = v.ttl, v.norecv
+				variants = append(variants, sc)
+			}
+		}
+	}
 	return
 }
 
@@ -1082,6 +1167,7 @@ func main() {
 	defer c.Finish()
 	c.Family("seq", []string{"From Model Require Import C15_Shutdown."}, "seq_case_ok", 500)
 	c.Family("trace", []string{"From Model Require Import C15_Shutdown."}, "trace_case_ok", 120)
+	c.Family("seqnorecv", []string{"From Model Require Import C15_Shutdown."}, "seq_case_ok_norecv", 500)
 	c.Res.Exhaustive = true
 	c.Res.Rule = "Close injected (the sync goroutine is held there until doClose has started) at each of the verif yield points of an explicit sync and of an announce-triggered sync, plus a held publisher block request and an in-flight registration, with 1, 2 and 4 concurrent Close callers, with and without the async semaphore; a publisher that never answers; seeded random mixes of 3..8 concurrent calls (close, sync, announce, listen, cancel) with perturbed yield points; Close with the distributor held; every call under a 2 s watchdog; after Close: entry points, silence (hooks, store writes, yield points), listener channels closed, goroutine dump; all sequential histories over the 5 calls up to length 4/5 (exhaustive) as Coq cases; non-trivial = the injection point was reached / the mix or history contains a call after a Close"
 
@@ -1098,7 +1184,7 @@ func main() {
 			c.Fail("replay:"+r.Sigs[i], f, sc)
 		}
 		if sc.Kind == "seq" {
-			c.Case("seq", coqSeq(r), sc)
+			c.Case(seqFamily(sc), coqSeq(r), sc)
 		}
 		if r.Trace != "" {
 			c.Case("trace", r.Trace, sc)
@@ -1107,15 +1193,21 @@ func main() {
 		return
 	}
 
-	targeted, bulk := genAll(c)
+	targeted, bulk, variants := genAll(c)
 	var results []Res
 	for _, sc := range targeted {
 		results = append(results, runChildren(c, []Scn{sc}, 1)...)
 	}
+	// the option variants: the after-close scenarios first (10, each the first of its process)
+	results = append(results, runChildren(c, variants, 10)...)
 	results = append(results, runChildren(c, bulk, 12)...)
 	for _, r := range results {
 		c.Eval()
 		c.Count("scenario:" + r.Sc.Kind)
+		if v := r.Sc.variant(); v != "" {
+			c.Count("options:" + v)
+			c.Count("options:" + v + ":" + r.Sc.Kind)
+		}
 		if r.Sc.Point != "" {
 			c.Count("point:" + r.Sc.Point + pick(r.Reached, "", ":not-reached"))
 		}
@@ -1136,12 +1228,15 @@ func main() {
 			js, _ := json.Marshal(r.Sc)
 			c.Nontrivial(string(js))
 		}
-		if r.Trace != "" {
+		// the idle-handler TTL does not appear in the model (the cleaner's exit is all Close
+		// waits for): the logs of those variants would replay exactly like the default ones, so
+		// the quick tier leaves them to the direct oracles
+		if r.Trace != "" && (r.Sc.TTL == "" || c.Thorough()) {
 			c.Case("trace", r.Trace, r.Sc)
 			c.Count("traced:" + r.Sc.Kind)
 		}
 		if r.Sc.Kind == "seq" {
-			c.Case("seq", coqSeq(r), r.Sc)
+			c.Case(seqFamily(r.Sc), coqSeq(r), r.Sc)
 			for _, o := range r.Outcomes {
 				c.Count("outcome:" + o)
 			}
